@@ -50,11 +50,11 @@ impl Dual {
     }
     pub fn div(&self, o: &Dual) -> Dual {
         let inv = 1.0 / o.v;
-        let cond = o.vm * inv.abs(); // >= 1
+        let cond = o.vm * inv.abs(); // >= 1: relative uncertainty of the divisor
         Dual::lin(
             self.v * inv,
-            self.vm * inv.abs() * cond,
-            &[(self, inv, inv.abs() * cond), (o, -self.v * inv * inv, self.vm * inv * inv * cond * cond)],
+            self.vm * inv.abs() + self.v.abs() * o.vm * inv * inv,
+            &[(self, inv, inv.abs() * cond), (o, -self.v * inv * inv, self.vm * inv * inv * 2.0 * cond)],
         )
     }
     pub fn neg(&self) -> Dual {
